@@ -7,4 +7,4 @@ THEOREMS = ['C01_output_atoms_partial', 'C01_optional_paren_sound', 'C01_markup_
 
 
 def run(tier, seed, replay=None):
-    return core.run_property('C01', tier, seed, replay, 'c01', PROP_FILE, THEOREMS, "the formatted text does not parse to a syntax tree equivalent to the input's (skeleton mismatch)", ["A1/A2: the re-parsed half of the property relies on typst_syntax::parse, which is outside the model; the skeleton oracle (harness/src/obs.rs) is an executable reading of 'equivalent tree' and is testing, not proof", 'the theorems are the parser-free mechanisms (token emission in document order at every width, optional delimiters, markup line structure); the four stylists are proved to conserve what they are handed (flow, plain, list, chain printer); that every converter's producer hands every non-trivia child to its stylist is not yet proved and is covered by K5 (model output == implementation output) on every case'])
+    return core.run_property('C01', tier, seed, replay, 'c01', PROP_FILE, THEOREMS, "the formatted text does not parse to a syntax tree equivalent to the input's (skeleton mismatch)", ["A1/A2: the re-parsed half of the property relies on typst_syntax::parse, which is outside the model; the skeleton oracle (harness/src/obs.rs) is an executable reading of 'equivalent tree' and is testing, not proof", 'the theorems are the parser-free mechanisms (token emission in document order at every width, optional delimiters, markup line structure); the four stylists are proved to conserve what they are handed (flow, plain, list, chain printer); that the producer of every converter hands every non-trivia child to its stylist is not yet proved and is covered by K5 (model output == implementation output) on every case'])
